@@ -15,7 +15,7 @@ import gc
 import os
 
 import eqlmc  # noqa: F401
-from entity_query_language import (an, entity, set_of, let, the, infer, symbolic_mode, rule_mode, Add, alternative,
+from entity_query_language import (an, a, entity, set_of, let, the, infer, symbolic_mode, rule_mode, Add, alternative,
                                    refinement)
 
 from .. import qast as Q
@@ -40,10 +40,22 @@ TASKS_PER_CHILD = 8
 DA = ((("p", 1), ("q", 1)), (("p", 2), ("q", 1)), (("p", 3), ("q", 2)), (("p", 2), ("q", 3)))
 DB = ((("p", 1), ("q", 2)), (("p", 2), ("q", 2)), (("p", 3), ("q", 1)))
 DD = ((("p", 1), ("q", 1)), (("p", 2), ("q", 2)), ("same", 0), (("p", 3), ("q", 1)), ("same", 1))
-WSPEC = (("DA", "Item", DA), ("DB", "Item", DB), ("DD", "Item", DD))
+DE = tuple((("p", i + 1),) for i in range(4))
+_e = lambda i: ("@", "DE", i)      # noqa: E731
+DP = ((("p", 1), ("items", (_e(0), _e(1), _e(2), _e(3)))), (("p", 2), ("items", (_e(1), _e(1), _e(2)))),
+      (("p", 3), ("items", (_e(3), _e(0)))))
+DO = ((("p", 1), ("q", 2)), (("p", 2), ("q", 2)), (("p", 1), ("q", 1)), (("p", 2), ("q", 1)), (("p", 3), ("q", 2)))
+_o = lambda i: ("@", "DO", i)      # noqa: E731
+DH = ((("inner", _o(0)), ("n", 1)), (("inner", _o(1)), ("n", 2)), (("inner", _o(4)), ("n", 1)))
+DC = ((("a", _o(0)), ("b", _o(2))), (("a", _o(1)), ("b", _o(3))), (("a", _o(4)), ("b", _o(3))), (("a", _o(4)), ("b", _o(2))))
+WSPEC = (("DA", "Item", DA), ("DB", "Item", DB), ("DD", "Item", DD), ("DE", "Item", DE), ("DP", "Item", DP),
+         ("DO", "Other", DO), ("DH", "Holder", DH), ("DC", "Made2", DC))
 VX = ("x", "let", "Item", "DA")
 VY = ("y", "let", "Item", "DB")
 VD = ("xd", "let", "Item", "DD")
+VP = ("xp", "let", "Item", "DP")
+XP = ("v", "xp")
+EL = ("fl", A(XP, "items"))          # one un-nesting node shared by every query of pool D
 XD = ("v", "xd")
 XI = ("v", "xi")
 
@@ -70,29 +82,43 @@ SPECS = {
     "the2": ("Q", "the", "entity", X, (("cmp", "eq", xp, L(2)),), (VX,)),       # two solutions: raises
     "dup": ("Q", "an", "entity", XD, (("cmp", "ge", A(XD, "p"), L(1)),), (VD,)),
     "dupjoin": ("Q", "an", "setof", (XD, Y), (("cmp", "eq", A(XD, "p"), yp),), (VD, VY)),
+    # pool D: un-nested collections (evaluations that stop in the middle of one parent's elements)
+    "fl_pe": ("Q", "an", "setof", (XP, EL), (("cmp", "ge", A(EL, "p"), L(2)),), (VP,)),
+    "fl_e": ("Q", "an", "entity", EL, (("cmp", "ge", A(EL, "p"), L(2)),), (VP,)),
+    "fl_the": ("Q", "the", "entity", EL, (("cmp", "ge", A(EL, "p"), L(2)),), (VP,)),     # several solutions: raises
+    "fl_pred": ("Q", "an", "setof", (XP, EL), (("pf", "p_eq", (EL, L(2))),), (VP,)),
+    "fl_all": ("Q", "an", "setof", (XP, EL), (), (VP,)),
+    # pool E: predicate-form variables without a domain (they range over the registry), in a query and in a rule
+    "nd_k": "special", "nd_join": "special", "nd_rule": "special", "nd_o": "special",
     "iter": "special",
     "rule": "special",
     "rule_ref": "special",
 }
-USER_CODE = {"pred": "p_eq", "pcls": "PEq", "meth": "is_p", "indep_pred": "p_eq"}
+USER_CODE = {"pred": "p_eq", "pcls": "PEq", "meth": "is_p", "indep_pred": "p_eq", "fl_pred": "p_eq"}
 POOLS = {
     "A": ("join", "or_same", "union", "negand", "xonly", "indep"),
     "B": ("pred", "pcls", "meth", "and_unions", "indep_pred"),
     "C": ("the1", "the2", "dup", "dupjoin", "iter", "rule", "rule_ref"),
+    "D": ("fl_pe", "fl_e", "fl_the", "fl_pred", "fl_all"),
+    "E": ("nd_k", "nd_join", "nd_rule", "nd_o"),
 }
 
 
 def alphabet(pool):
     ops = []
     for name in POOLS[pool]:
-        if name.startswith("the"):
+        if "the" in name:
             ops.append(("F", name))
             continue
         ops += [("F", name), ("T1", name), ("K1", name)]
-        if name in ("join", "union", "and_unions", "dupjoin", "rule", "iter", "indep", "indep_pred"):
+        if name in ("join", "union", "and_unions", "dupjoin", "rule", "iter", "indep", "indep_pred", "nd_join", "nd_rule"):
             ops.append(("T2", name))
+        if name in ("fl_pe", "fl_all"):
+            ops += [("T2", name), ("T3", name), ("T5", name)]
         if name in USER_CODE:
             ops += [("R1", name), ("R2", name)]
+        if name == "fl_pred":
+            ops.append(("R6", name))
     return ops
 
 
@@ -128,6 +154,19 @@ class Pool:
             self.b.env["xi"] = xi
             with symbolic_mode():
                 self.q["iter"] = an(entity(xi, xi.p >= 2))
+        if pool == "E":
+            two, one = inst.v(2), inst.v(1)
+            with symbolic_mode():
+                ok = W.Other(q=two)
+                self.q["nd_k"] = an(entity(ok))
+                o = W.Other(q=two)
+                h = W.Holder(inner=o)
+                self.q["nd_join"] = an(set_of([o, h]))
+                self.nd_sel = (o, h)
+                self.q["nd_o"] = an(entity(o, o.p >= two))
+            with rule_mode():
+                self.q["nd_rule"] = infer(W.Made(a=a(ro := W.Other(q=two)), b=a(ri := W.Other(q=one))),
+                                          W.Holder(inner=ro, n=one), W.Made2(a=ro, b=ri))
         if "rule" in POOLS[pool]:
             x, y = self.b.env["x"], self.b.env["y"]
             with symbolic_mode():
@@ -162,6 +201,8 @@ class Pool:
 
     def norm_result(self, name, rows):
         spec = SPECS[name]
+        if name == "nd_join":
+            return [tuple(Q.norm(r[s]) for s in self.nd_sel) for r in rows]
         if spec != "special" and spec[2] == "setof":
             sel = self.b.sel[spec]
             return [tuple(Q.norm(r[s]) for s in sel) for r in rows]
@@ -170,7 +211,7 @@ class Pool:
     def full(self, name):
         q = self.q[name]
         try:
-            if name.startswith("the"):
+            if "the" in name:
                 return ("value", Q.norm(q.evaluate()))
             return self.norm_result(name, list(q.evaluate()))
         except W.InjectedFault:
@@ -184,8 +225,8 @@ class Pool:
         W.LOG.reset()
         if kind == "F":
             return self.full(name)
-        if kind in ("T1", "T2", "K1"):
-            k = 2 if kind == "T2" else 1
+        if kind[0] in "TK":
+            k = int(kind[1])
             it = q.evaluate()
             got = []
             try:
@@ -203,8 +244,8 @@ class Pool:
                 except Exception as e:
                     return exc_obs(e)
             return ("took", len(got))
-        if kind in ("R1", "R2"):
-            W.LOG.raise_at = (USER_CODE[name], 1 if kind == "R1" else 2)
+        if kind[0] == "R":
+            W.LOG.raise_at = (USER_CODE[name], int(kind[1]))
             try:
                 list(q.evaluate())
                 return ("no-fault-reached",)
@@ -238,7 +279,7 @@ def same(name, got, exp):
             or (isinstance(exp, tuple) and exp and exp[0] == "value"):
         return got == exp
     spec = SPECS[name]
-    if name in ("rule", "rule_ref"):
+    if name in ("rule", "rule_ref", "fl_pe", "fl_pred", "fl_all", "nd_rule", "nd_join"):     # one row per (parent, occurrence): multiset
         return sorted(map(repr, got)) == sorted(map(repr, exp))
     if spec == "special" or spec[2] == "entity" or name == "dupjoin":
         return got == exp if name != "dupjoin" else sorted(map(repr, got)) == sorted(map(repr, exp))
@@ -289,13 +330,20 @@ def run_case(case, inst):
 
 def describe(case, inst):
     pool, hist = case
-    lines = [Q.up_world(WSPEC, inst), f"# pool {pool}: queries over shared variables x (DA), y (DB), xd (DD)"]
+    lines = [Q.up_world(WSPEC, inst), f"# pool {pool}: queries over shared variables x (DA), y (DB), xd (DD), xp (DP)"]
     for name in POOLS[pool]:
         spec = SPECS[name]
         if spec != "special":
             lines.append(f"{name}: " + Q.up_query(spec, inst))
         elif name == "iter":
             lines.append("iter: xi = let(Item, iter(DA)); q = an(entity(xi, xi.p >= 2))")
+        elif name.startswith("nd_"):
+            lines.append({
+                "nd_k": "nd_k: an(entity(Other(q=2)))",
+                "nd_join": "nd_join: an(set_of([o := Other(q=2), h := Holder(inner=o)]))",
+                "nd_o": "nd_o: an(entity(o, o.p >= 2))      # the same o",
+                "nd_rule": "nd_rule: with rule_mode(): infer(Made(a=a(ro := Other(q=2)), b=a(ri := Other(q=1))), "
+                           "Holder(inner=ro, n=1), Made2(a=ro, b=ri))"}[name])
         elif name == "rule":
             lines.append("rule: q = an(entity(views := let(View), x.p == y.p)); with rule_mode(q): Add(views, Made(a=x, b=y, c=1));"
                          " with alternative(x.q == y.q): Add(views, Made(a=x, b=y, c=2))")
@@ -305,5 +353,7 @@ def describe(case, inst):
     lines.append("history: " + " ; ".join(f"{k}({n})" for k, n in hist) + " ; then list(q.evaluate()) for every pool query")
     lines.append("# F=full evaluation, T<k>=take k results then close(), K1=take 1 and keep the iterator alive, "
                  "R<j>=the j-th call of the query's user code raises")
+    if pool == "D":
+        lines.append("# flatten(xp.items) is ONE expression object shared by the queries of the pool")
     lines.append("# expected: every full evaluation equals the query's result as first evaluation in a fresh world")
     return "\n".join(lines)
